@@ -227,6 +227,61 @@ Section AgentExt.
   Proof. intros until m. intros HF. rewrite agent_refines_spec by auto. apply emits_end_with_plain_answer. Qed.
 End AgentExt.
 
+(* ---- the default checker is exact except on "content before the tool call" --------------- *)
+Lemma default_checker_char : forall cs,
+  default_checker cs = existsb has_frags cs && negb (content_before_toolcall cs).
+Proof.
+  induction cs as [|c cs IH]; simpl; auto.
+  destruct (has_frags c); simpl; auto.
+  destruct (String.eqb (k_content c) ""); auto.
+  destruct (existsb has_frags cs); reflexivity.
+Qed.
+
+Lemma default_checker_exact_iff : forall cs content calls,
+  concat_chunks cs = Some (content, calls) ->
+  (default_checker cs = nonempty calls <-> content_before_toolcall cs = false).
+Proof.
+  intros cs content calls H. rewrite default_checker_char.
+  rewrite <- (exact_checker_exact cs content calls H). unfold exact_checker.
+  assert (G : content_before_toolcall cs = true -> existsb has_frags cs = true).
+  { clear. induction cs as [|c cs IH]; simpl; [discriminate|].
+    destruct (has_frags c); [discriminate|]. simpl.
+    destruct (String.eqb (k_content c) ""); auto. }
+  destruct (content_before_toolcall cs); split; intro H1; auto.
+  - rewrite G in H1 by reflexivity. discriminate.
+  - discriminate.
+  - simpl. apply andb_true_r.
+Qed.
+
+(* no reply of the script streams content before its first tool call *)
+Definition tool_calls_first (s : step) : Prop :=
+  match s with
+  | SFail => True
+  | SMsg _ _ chunks => content_before_toolcall chunks = false
+  end.
+
+Section DefaultChecker.
+  Variable tn : list call -> res (list tmsg).
+  Variable rd : string -> bool.
+  Variable rd_nonempty : bool.
+  Variable modifier : list msg -> list msg.
+  Variable visible : call -> bool.
+
+  (* Generate and Stream agree with the DEFAULT checker on every script outside the known finding *)
+  Theorem generate_stream_agree_default : forall script max_steps input,
+    Forall chunking_valid script ->
+    Forall tool_calls_first script ->
+    agent_run tn rd rd_nonempty modifier visible default_checker Stream max_steps script input
+    = agent_run tn rd rd_nonempty modifier visible default_checker Generate max_steps script input.
+  Proof.
+    intros script max_steps input Hv Hf. apply generate_stream_agree_gen; auto.
+    - apply default_checker_whole.
+    - rewrite Forall_forall in *. intros s Hs. specialize (Hv s Hs). specialize (Hf s Hs).
+      destruct s as [|content calls chunks]; simpl in *; auto.
+      apply (default_checker_exact_iff chunks content calls Hv). exact Hf.
+  Qed.
+End DefaultChecker.
+
 (* ---- the tools node of the correspondence answers in call order ------------------------- *)
 Section ToolsIds.
   Variable kind_of : string -> option tkind.
